@@ -255,12 +255,8 @@ func (p *pair) fail(kind, format string, a ...any) {
 	p.c.Fail(kind, format, a...)
 }
 
-// sizeTolerated: between the package's own request limit and the specification's the library
-// may refuse or serve (DESIGN 6 C17, request-size bound).
-func sizeTolerated(n int) bool { return n > ref.PackageMaxRequest && n <= ref.MaxRequest }
-
 // generate performs one Generate on both sides and judges it. It returns what happened
-// ("ok", "reseed", "size", "time-gap", "tolerated") for class keys.
+// ("ok", "reseed", "size", "time", "time-gap", ...) for class keys.
 func (p *pair) generate(n int, addl []byte) string {
 	c := p.c
 	buf := bytes.Repeat([]byte{fence}, n+16)
@@ -310,7 +306,7 @@ func (p *pair) generate(n int, addl []byte) string {
 			p.dead = true
 			return "late"
 		case tooBig:
-			p.fail("accept", "%s Generate(n=%d) was served; the maximum per request is %d bytes", p.g.name(), n, p.model.MaxRequest())
+			p.fail("accept", "%s Generate(n=%d) was served; the maximum per request (MaxBytesPerRequest) is %d bytes", p.g.name(), n, p.model.MaxRequest())
 			p.dead = true
 			return "toobig"
 		}
@@ -329,9 +325,6 @@ func (p *pair) generate(n int, addl []byte) string {
 		}
 		p.model = m2
 		c.Event("generate_ok", 1)
-		if sizeTolerated(n) {
-			c.Event("above_package_limit_served", 1)
-		}
 		return "ok"
 	case err == drbg.ErrReseedRequired:
 		switch {
@@ -363,10 +356,6 @@ func (p *pair) generate(n int, addl []byte) string {
 			untouched("reseed due")
 			p.fail("mismatch", "%s Generate(n=%d) past the reseed interval returned %q instead of ErrReseedRequired", p.g.name(), n, err)
 			return "reseed"
-		case sizeTolerated(n):
-			untouched("package request limit")
-			c.Event("above_package_limit_refused", 1)
-			return "tolerated"
 		}
 		p.fail("reject", "%s Generate(n=%d, addl=%d) at reseed_counter=%d failed: %v", p.g.name(), n, len(addl), ctr, err)
 		p.dead = true
